@@ -240,3 +240,29 @@ def scaled_utility_desc(desc, U):
         if f[0] == "utility":
             f[2] = f"{U!r} * ({f[2]})"
     return d
+
+
+def rename_variables(desc, mapping):
+    """Consistently rename state / choice variables (and their next_ functions): {old: new}."""
+    import re
+
+    mp = dict(mapping)
+    for old, new in mapping.items():
+        mp["next_" + old] = "next_" + new
+    pat = re.compile(r"\b(" + "|".join(re.escape(k) for k in sorted(mp, key=len, reverse=True)) + r")\b")
+    sub = lambda s: pat.sub(lambda m: mp[m.group(1)], s)  # noqa: E731
+    d = dict(desc)
+    d["states"] = [[mp.get(s, s), sp] for s, sp in desc["states"]]
+    d["choices"] = [[mp.get(c, c), sp] for c, sp in desc["choices"]]
+    d["functions"] = [[mp.get(n, n), [mp.get(a, a) for a in args], sub(expr)] for n, args, expr in desc["functions"]]
+    d["stochastic"] = [mp.get(n, n) for n in desc.get("stochastic", [])]
+    p = {}
+    for k, v in desc["params"].items():
+        if k == "shocks":
+            p[k] = {mp.get(s, s): a for s, a in v.items()}
+        else:
+            p[mp.get(k, k)] = v
+    d["params"] = p
+    if "frozen_params" in d:
+        d["frozen_params"] = [[mp.get(a, a), b] for a, b in d["frozen_params"]]
+    return d
